@@ -35,11 +35,13 @@ pub struct Src {
     pub index_range: usize,
     pub log: Vec<String>,
     pub keep_log: bool,
+    /// when set, every ordinary scalar drawn is moved by -2..=2 units in the last place (conditioning probe)
+    pub perturb: Option<Rng>,
 }
 
 impl Src {
     pub fn new(seed: u64, mode: Mode) -> Src {
-        Src { rng: Rng::new(seed), mode, hot: None, slot: 0, hidden: Hidden::Natural, pool: HashMap::new(), pool_prob: 0.0, buf_len: 16, index_range: 2, log: vec![], keep_log: false }
+        Src { rng: Rng::new(seed), mode, hot: None, slot: 0, hidden: Hidden::Natural, pool: HashMap::new(), pool_prob: 0.0, buf_len: 16, index_range: 2, log: vec![], keep_log: false, perturb: None }
     }
     pub fn reseed(&mut self, seed: u64) {
         self.rng = Rng::new(seed);
@@ -96,6 +98,13 @@ impl Src {
                 2 => S::of(self.rng.range(-1.0, 1.0)),
                 _ => S::of(self.rng.logmag(-4.0, 4.0)),
             }
+        };
+        let v = match &mut self.perturb {
+            Some(pr) if v.finite() && v.f64() != 0.0 => {
+                let k = pr.int_in(-2, 2);
+                S::from_bits64((v.bits() as i64 + k) as u64)
+            }
+            _ => v,
         };
         if self.keep_log {
             self.log.push(v.hex());
